@@ -4,6 +4,7 @@
 #    builds, the pinned suite passes with it, the demonstration fails with it and passes without it;
 # 2. applies the patch to /repo, runs the registered quick checks, and undoes it straight afterwards;
 # 3. prints which checks raised a VIOLATION.
+# EVALSA=<binary>: use that analyser binary instead of ./check.sh (which rebuilds bin/evalsa from the sources being edited)
 set -u
 export GOFLAGS=-mod=mod GOPROXY=off GOSUMDB=off GOTOOLCHAIN=local
 unset GOWORK
@@ -32,7 +33,8 @@ if ! git -C /repo diff --quiet; then echo "/repo has local changes, refusing"; e
 git -C /repo apply "$SEED/patch.diff" || exit 2
 CAUGHT=""
 for p in $PROPS; do
-  out=$("$VERIF/check.sh" "$p" quick 2>/dev/null); rc=$?
+  if [ -n "${EVALSA:-}" ]; then out=$("$EVALSA" -prop "$p" -tier quick -repo /repo -verif "$VERIF" 2>/dev/null); rc=$?
+  else out=$("$VERIF/check.sh" "$p" quick 2>/dev/null); rc=$?; fi
   if [ $rc -ne 0 ]; then
     CAUGHT="$CAUGHT $p"
     echo "$out" | grep -E "^VIOLATION|NO VERDICT" | sed -e 's/replay=[^ ]* //' | cut -c1-260 | head -4
